@@ -221,6 +221,8 @@ class C18(Prop):
                             kwargs.append([k, c])
                         else:
                             entries.append([k, c])
+                        if mapped and k in sh["wrap"]["mapOver"]:
+                            cell(cells[c])      # the second item: a distinct object of equal content, always the cell right after the first
                     dicts.append(entries)
                     dref = len(dicts) - 1
                     if share:
@@ -244,8 +246,11 @@ class C18(Prop):
 
         def mapped_inputs(spec: dict, values: dict) -> dict:
             mo = spec.get("wrap", {}).get("mapOver")
-            # two items: the caller's object and a fresh equal one (distinct objects, so items do not alias each other)
-            return values if not mo else {k: ([v, list(v)] if k in mo else v) for k, v in values.items()}
+            # two items: the caller's object and a second tracked object of equal content (distinct objects, so items do not alias)
+            if not mo:
+                return values
+            ref_of = {id(c): i for i, c in enumerate(w.cells)}
+            return {k: ([v, w.cells[ref_of[id(v)] + 1]] if k in mo else v) for k, v in values.items()}
 
         def outcome(rid: int, fn: Any) -> Any:
             try:
@@ -362,8 +367,10 @@ class C18(Prop):
     def compare(self, case: dict, i: Any, driver: Any) -> str | None:
         if any(s.get("frozen") for sp in case["specs"] for nd in sp["nodes"] for s in nd["srcs"]):
             return None     # immutable twins of a default are not objects of the memory model; judged by the oracle alone
-        if "error" in i or any(sp.get("wrap", {}).get("mapOver") for sp in case["specs"]):
-            return None     # per-item inner runs of a mapping node are outside the (flat) memory model; judged by the oracle alone
+        if "error" in i:
+            return None
+        if any("wrap" in sp for sp in case["specs"]):
+            return self._compare_nested(case, i, driver)
         sched_pairs = [[rid, 0] for rid in range(len(case["specs"]))] + [[c["rid"], c["sid"] + 1] for c in i["calls"]]
         specs = [{"nodes": [{"srcs": nd["srcs"], "eff": nd["eff"], "out": nd["out"]} for nd in sp["nodes"]], "values": sp["values"], "kwargs": sp["kwargs"]}
                  for sp in case["specs"]]
@@ -386,6 +393,64 @@ class C18(Prop):
             return f"final contents of the caller-visible objects: impl={i['cells']} model={m['cells']}"
         if i["dicts"] != [[list(kv) for kv in d] for d in m["dicts"]]:
             return f"caller dicts after the runs: impl={i['dicts']} model={m['dicts']}"
+        return None
+
+    def _compare_nested(self, case: dict, i: Any, driver: Any) -> str | None:
+        """Nested / mapped shapes: the Lean model with sub nodes (HG.IsoN), driven by the real order of TOP-LEVEL steps.
+
+        The model executes a sub node atomically, inner nodes in list order, items one after the other. When the real run ordered the
+        inner calls differently (supersteps, concurrent items or runs) the contents of SHARED objects may legitimately differ, so the
+        comparison is made only when the real call order is the model's order; otherwise the case is judged by the oracle alone."""
+        if case["mode"] == "async-conc" and any(sp.get("wrap", {}).get("mapOver") for sp in case["specs"]):
+            return None     # items of a map run concurrently here: their calls interleave, the model runs them one after the other
+        specs = []
+        for sp in case["specs"]:
+            fns = [{"fn": {"srcs": [{k: v for k, v in s.items() if k != "frozen"} for s in nd["srcs"]], "eff": nd["eff"], "out": nd["out"]}} for nd in sp["nodes"]]
+            if "wrap" not in sp:
+                specs.append({"nodes": fns, "values": sp["values"], "kwargs": sp["kwargs"]})
+                continue
+            mo = sp["wrap"].get("mapOver") or []
+            entries = case["dicts"][sp["values"]] + sp["kwargs"]
+            fwd = [[k, {"provided": k}] for k, _ in entries if k not in mo]
+            items = [[[k, r] for k, r in entries if k in mo], [[k, r + 1] for k, r in entries if k in mo]] if mo else None
+            sub = {"sub": {"inner": fns, "fwd": fwd, "items": items, "clone": sp["wrap"].get("clone"), "outs": [nd["out"] for nd in sp["nodes"]]}}
+            specs.append({"nodes": [sub], "values": sp["values"], "kwargs": sp["kwargs"]})
+        # the real order of top-level steps: a wrapped run contributes ONE step (its sub node), when its first inner call happens
+        sched_pairs = [[rid, 0] for rid in range(len(case["specs"]))]
+        seen_wrapped: set[int] = set()
+        for c in i["calls"]:
+            if "wrap" in case["specs"][c["rid"]]:
+                if c["rid"] not in seen_wrapped:
+                    seen_wrapped.add(c["rid"])
+                    sched_pairs.append([c["rid"], 1])
+            else:
+                sched_pairs.append([c["rid"], c["sid"] + 1])
+        m = driver.ask({"op": "isorunN", "cells": case["cells"], "dicts": case["dicts"], "specs": specs, "sched": sched_pairs})
+        if not m.get("wf", True):
+            return None     # the generated situation hands a default object out explicitly: outside the theorem's hypothesis
+        # map the model's calls to (rid, inner sid, item)
+        mlog = []
+        for b in m["log"]:
+            if b["path"]:
+                item, idx = b["path"][-1]
+                mlog.append((b["rid"], idx, b))
+            else:
+                mlog.append((b["rid"], b["sid"], b))
+        real = [(c["rid"], c["sid"], c) for c in i["calls"]]
+        if [(r, s_) for r, s_, _ in real] != [(r, s_) for r, s_, _ in mlog]:
+            return None     # different inner order (supersteps / concurrency): not comparable call by call
+        for n, ((_, _, a), (_, _, b)) in enumerate(zip(real, mlog)):
+            if a["before"] != b["before"]:
+                return f"call {n} (run {a['rid']} node n{a['sid']}): argument contents on entry impl={a['before']} model(nested)={b['before']}"
+            if a["after"] != b["after"]:
+                return f"call {n} (run {a['rid']} node n{a['sid']}): result impl={a['after']} model(nested)={b['after']}"
+            for j, (ref, (mref, copy_of)) in enumerate(zip(a["refs"], b["args"])):
+                if copy_of is None and mref < len(case["cells"]) and ref != mref:
+                    return f"call {n}: argument {j} is object #{ref} on the implementation, the nested model passes object #{mref} by reference"
+                if copy_of is not None and ref is not None:
+                    return f"call {n}: argument {j} is the original object #{ref}; the nested model passes a private copy of #{copy_of}"
+        if i["cells"] != m["cells"]:
+            return f"final contents of the caller-visible objects: impl={i['cells']} model(nested)={m['cells']}"
         return None
 
     def nontrivial(self, case: dict, obs: Any) -> bool:
